@@ -22,6 +22,8 @@ enum Op {
     CloneU(usize),
     DropU(usize),
     PromoteU(usize), // borrow -> clone_arc -> plain Arc
+    /// `us[i].clone_from(&us[j])` (the Clone trait's second entry point)
+    CloneFromU(usize, usize),
     DropA,
     DropB,
 }
@@ -70,6 +72,11 @@ impl Model {
                 v.push(Op::PromoteU(i));
             }
             v.push(Op::DropU(i));
+            for j in 0..self.us.len() {
+                if j != i && !self.us[..j].contains(&self.us[j]) {
+                    v.push(Op::CloneFromU(i, j));
+                }
+            }
         }
         if self.arcs_a > 0 {
             v.push(Op::DropA);
@@ -120,6 +127,20 @@ impl Model {
                 } else {
                     self.b_owners -= 1
                 }
+            }
+            Op::CloneFromU(i, j) => {
+                let (old, new) = (self.us[i], self.us[j]);
+                if new.1 {
+                    self.a_owners += 1
+                } else {
+                    self.b_owners += 1
+                }
+                if old.1 {
+                    self.a_owners -= 1
+                } else {
+                    self.b_owners -= 1
+                }
+                self.us[i] = new;
             }
             Op::PromoteU(i) => {
                 // the promoted plain Arc has the *variant's* type; with equal types it is stored by allocation
@@ -187,6 +208,10 @@ fn run_path<A: DShape, B: DShape>(g: &mut Grid, path: &[Op]) {
                 r.us.push(c)
             }
             Op::DropU(i) => drop(r.us.remove(i)),
+            Op::CloneFromU(i, j) => {
+                let src: &ArcUnion<A, B> = unsafe { &*(&r.us[j] as *const ArcUnion<A, B>) };
+                r.us[i].clone_from(src)
+            }
             Op::PromoteU(i) => {
                 let on_a = before.us[i].1;
                 match r.us[i].borrow() {
